@@ -94,11 +94,12 @@ def _build_program(args):
     d = os.path.join(tmp, "prog%d" % k if k >= 0 else "progT")
     os.makedirs(d)
     tape = Tape(seed=seed)
-    force = [["chain"], ["enum", "template"], ["objargs"], ["chain", "objargs", "template"], [], ["enum", "chain"],
-             ["template"], ["objargs", "template"]][k % 8]
+    force = [["chain"], ["enum", "template"], ["objargs"], ["chain", "objargs", "template"], [], ["enum_nested", "chain"],
+             ["template"], ["objargs", "template", "enum_nested"]][k % 8]
     feats = {"enums": True, "force": force}
     if k < 0:          # the `thisargs` program: class templates using `This` as argument / return everywhere
-        feats = {"enums": False, "force": ["template", "template"], "this_args": True}
+        feats = {"enums": True, "force": ["template", "template", "enum_nested"], "this_args": True,
+                 "class_enum_nested": True}
     prog, itext, lib = MP.generate(tape, feats)
     open(os.path.join(d, "prog.i"), "w").write(itext)
     open(os.path.join(d, "lib.h"), "w").write(lib)
@@ -292,6 +293,11 @@ class Hist:
         if ty.kind == "enum":
             e = [x for x in self.prog.enums if x.qname == ty.name][0]
             v = t.choose(len(e.values), "enum-val")
+            if e.mname not in self.s.classes:
+                # the toolbox has no classdef under the enum's MATLAB name: a session cannot even write the value
+                self.add("G1", "G1:class-enum-package-misplaced", "no enumeration classdef %s in the toolbox (have: %s)"
+                         % (e.mname, sorted(k for k, c in self.s.classes.items() if c.enum_members)))
+                return None
             self.pr("enum_argument")
             return S.MEnum(e.mname, v), "e:%d" % v
         if ty.kind == "class":
@@ -803,10 +809,18 @@ class Hist:
                 return
             g = getattr(f, "generic", None)
             cls = "wellformed-call-refused"
+            rets = [] if f.ret is None else ([f.ret] if not isinstance(f.ret, tuple) else [f.ret[1], f.ret[2]])
+            for rt in rets:
+                if rt.kind == "enum":
+                    en = [x for x in self.prog.enums if x.qname == rt.name][0]
+                    if en.mname not in self.s.classes:
+                        cls = "class-enum-package-misplaced"
             if g is not None and any(a.ty.kind == "this" for a in g.args):
                 cls = "template-This-argument-refused"
             elif g is not None and g.ret is not None and not isinstance(g.ret, tuple) and g.ret.kind == "this":
                 cls = "template-This-return-unknown-class"
+            if cls == "class-enum-package-misplaced":
+                pass
             self.add("G1", "G1:%s" % cls, "%s raised: %s" % (what, e.msg))
             return
         if self.expect_throw:
